@@ -390,3 +390,20 @@ def resolve_at(fn, n, depth=0):
         if d0 is not None:
             return resolve_at(fn, d0, depth + 1)
     return n
+
+
+def bound_value_params(fn):
+    """{parameter decl id: argument node} for the by-value integer parameters of folded helpers that were handed an unnamed
+    value (`shift_up(pos / 64, pos % 64)`): inside the helper such a parameter is a once-initialised local"""
+    out = {}
+    for d, i in fn.bind_map().items():
+        a = fn.node(i)
+        x = a.strip()
+        hops = 0
+        while x.kind in ("ImplicitCastExpr", "ParenExpr") and x.children and hops < 6:
+            x, hops = x.children[0].strip(), hops + 1
+        if x.kind == "DeclRefExpr":
+            continue
+        if a.get("bits") or x.get("bits"):
+            out[d] = a
+    return out
